@@ -36,6 +36,13 @@ CLAIMED = {
             "implementation-sorted chain is validated by TLC and every pair is checked against chain rank, so all pairs are decided.",
             "Number reached through an overlay-injected re-export package; integer classification of '1.0'-like literals unspecified; one recorded "
             "finding (0e1 rejected) is attributed only when the pinned-tree model predicts it.", "3/C10"),
+    "C01": ("TLA+ denotational requirement Sem!AcceptsShape; TLC enumerates the rule-free fragment (schemas x documents x both key-optionality "
+            "configurations) with verdict vectors; every pair replayed through jschema.Validate",
+            "Every schema of the enumerated fragment (kinds, nullable/optional/any incl. explicit false values and any on empty containers, key orders, "
+            "arrays to length 2, one/two nesting levels) is validated against every enumerated document (repeated keys, extra/missing keys, longer and "
+            "shorter arrays, int/float/null swaps) and the verdict must equal the one TLC computed; TLC also checks order-independence and "
+            "monotonicity of KeysAreOptionalByDefault on the requirement itself.",
+            "Exhaustive only below the enumeration bounds (depth 2/3, width 2/3); deeper nesting covered by the random trace tier of C03's driver.", "3/C01"),
 }
 
 PENDING_REASON = "check under construction in this session - not claimed yet (no technique switch intended; see DESIGN.md section 3)"
